@@ -177,6 +177,8 @@ def first_para(path):
 def do_run(ids, tier, all_checks, props_extra):
   rows = []
   for d in sorted(glob.glob(os.path.join(HERE, "seeded", "*"))):
+    if not os.path.isdir(d):
+      continue
     sid = os.path.basename(d)
     if ids and sid not in ids:
       continue
@@ -324,6 +326,8 @@ def do_run_refactors(ids, tier):
   of /repo and run their property's check: every one must stay silent."""
   bad = 0
   for d in sorted(glob.glob(os.path.join(HERE, "refactors", "*"))):
+    if not os.path.isdir(d):
+      continue
     rid = os.path.basename(d)
     if ids and rid not in ids:
       continue
